@@ -174,6 +174,37 @@ fn probes<S: StorageData>(db: &DbImpl<S>, m: &Model, rng_state: u64) -> Vec<(&'s
             Err(e) => out.push(("C18", format!("elements search with {name} condition failed: {}", e.description))),
         }
     }
+    // conditions on properties, plain and with the modifiers that only steer graph traversals: in an
+    // elements search nothing can be "beyond" anything, every element is still examined
+    let mut str_keys: Vec<String> = m.props.values().flat_map(|kvs| kvs.iter()).filter_map(|(k, _)| if let Val::Str(s) = k { Some(s.clone()) } else { None }).collect();
+    str_keys.sort();
+    str_keys.dedup();
+    if !str_keys.is_empty() {
+        let k = str_keys[((rng_state / 13) % str_keys.len() as u64) as usize].clone();
+        let has = |id: &i64| m.props.get(id).map(|kvs| kvs.iter().any(|(kk, _)| *kk == Val::Str(k.clone()))).unwrap_or(false);
+        let with_key: Vec<i64> = all.iter().copied().filter(|i| has(i)).collect();
+        let without_key: Vec<i64> = all.iter().copied().filter(|i| !has(i)).collect();
+        let nodes_only: Vec<i64> = all.iter().copied().filter(|i| *i > 0).collect();
+        let b = || QueryBuilder::search().elements().where_();
+        let cases: Vec<(&str, SearchQuery, &Vec<i64>)> = vec![
+            ("keys", b().keys(k.as_str()).query(), &with_key),
+            ("not keys", b().not().keys(k.as_str()).query(), &without_key),
+            ("not_beyond keys", b().not_beyond().keys(k.as_str()).query(), &all),
+            ("beyond keys", b().beyond().keys(k.as_str()).query(), &all),
+            ("node and not_beyond keys", b().node().and().not_beyond().keys(k.as_str()).query(), &nodes_only),
+        ];
+        for (name, q, want) in cases {
+            match db.exec(q) {
+                Ok(r) => {
+                    let got: Vec<i64> = r.elements.iter().map(|e| e.id.0).collect();
+                    if got != *want {
+                        out.push(("C18", format!("elements search where {name} {k:?}: got {got:?}, expected {want:?}")));
+                    }
+                }
+                Err(e) => out.push(("C18", format!("elements search where {name} {k:?} failed: {}", e.description))),
+            }
+        }
+    }
     out
 }
 
